@@ -76,6 +76,7 @@ inline size_t hash_int(int k) {
   case 1: return (size_t)(k % 2);
   case 2: return 5;
   case 3: return (size_t)(k * 128); // same bucket for every capacity <= 128, different above
+  case 4: return (size_t)(k * 256); // same bucket up to 256 buckets: still colliding after the first growth of a 128-bucket table
   default: return (size_t)k;
   }
 }
@@ -601,7 +602,15 @@ void run_sequential(int capacity, const ExecCtx& ctx, ExecOut& out) {
   using Map = typename M::Map;
   Rng rng(ctx.seed);
   g_hash_mode = capacity >= 128 ? (rng.chance(3, 4) ? 3 : 2) : (int)rng.below(3);
-  const int nkeys = capacity >= 128 ? rng.range(5, 12) : rng.range(3, 9);
+  int nkeys = capacity >= 128 ? rng.range(5, 12) : rng.range(3, 9);
+  // a quarter of the executions on the large tables: enough colliding keys (and operations) to exhaust the extension pool, so that the
+  // table grows while its buckets carry extension items - all keys in one bucket for ever (mode 2), in one bucket up to 128 buckets
+  // (mode 3) or up to 256 buckets (mode 4): re-created extension items in the new block, extension items that move back into a bucket
+  const bool crowd = capacity >= 128 && rng.chance(1, 4);
+  if (crowd) {
+    nkeys = rng.range(14, 40);
+    g_hash_mode = 2 + (int)rng.below(3);
+  }
   std::map<int, int64_t> ref;
   Map* map;
   xrt::quiet_end();
@@ -609,13 +618,21 @@ void run_sequential(int capacity, const ExecCtx& ctx, ExecOut& out) {
   xrt::quiet_begin();
   int64_t next_val = 1;
   std::string log, err;
-  int nops = rng.range(20, 60);
+  int nops = crowd ? rng.range(80, 200) : rng.range(20, 60);
+  if (crowd)
+    counters().add("seq_crowded_executions");
+  size_t max_present = 0;
+  const int prefill = crowd ? rng.range(8, 13) : 0;
   Worker<M> sw;
   sw.sequential = [&]() {
   xrt::Quiet quiet_monitor; // the reference model and the log are monitor state; library calls are bracketed below
   for (int i = 0; i < nops && err.empty(); ++i) {
     uint32_t r = rng.below(100);
     int k = rng.range(1, nkeys);
+    if (i < prefill) { // crowded executions start with 8-13 colliding keys present (emplace, judged like every other operation)
+      r = 0;
+      k = i + 1;
+    }
     OpRec o;
     if (r < 70) {
       uint8_t kind = r < 25 ? V_EMPLACE : r < 33 ? V_GET_OR_EMPLACE_LAZY : r < 45 ? V_ERASE : r < 52 ? V_EXTRACT : r < 60 ? V_TRYGET
@@ -628,6 +645,7 @@ void run_sequential(int capacity, const ExecCtx& ctx, ExecOut& out) {
       exec_op<M>(*map, POp{kind, k, next_val++}, o);
       xrt::quiet_begin();
       bool present = ref.count(k) != 0;
+      max_present = std::max(max_present, ref.size());
       int64_t cur = present ? ref[k] : 0;
       bool ok = true;
       switch (o.kind) {
@@ -707,6 +725,8 @@ void run_sequential(int capacity, const ExecCtx& ctx, ExecOut& out) {
   out.nontrivial = true;
   out.history = fmt("capacity=%d hash_mode=%d keys=%d: ", capacity, g_hash_mode, nkeys) + log;
   counters().add("sequential_ops", (uint64_t)nops);
+  if (crowd && max_present >= 14)
+    counters().add("seq_growth_with_extension_items"); // 14 keys in one bucket of a 128-bucket table: 3 + 10 extension items + 1 = grow
   if (xrt::has_violation())
     return;
   if (!err.empty())
